@@ -103,7 +103,8 @@ def report(c, block, idx):
         sig = "lease: event %s not allowed by the contract" % e
     if replylost:
         sig = "lease: the record of a live holder expired after the REPLY of a renewal was lost (the holder cannot learn the new version)"
-    c.report_failure(sig, {"scenario": head, "rejected_event": ev, "history": block[max(0, idx - 12):idx + 1]})
+    c.report_failure(sig, {"scenario": head, "rejected_event": ev, "history": block[:idx + 1],
+                           "trace": {"comp": "lock", "module": "LeaseTrace", "constants": {"Slack": SLACK_US}}})
 
 
 def selftest(c, path):
